@@ -315,7 +315,7 @@ func (e *ex) evalRef(ops variants.IVariantOperations, m string, binds []binding)
 			name = strings.ReplaceAll(name[1:len(name)-1], "\"\"", "\"")
 		}
 		for _, b := range binds {
-			if strings.EqualFold(b.name, name) {
+			if strings.ToUpper(b.name) == strings.ToUpper(name) {
 				return b.val, ""
 			}
 		}
